@@ -13,6 +13,7 @@ import LarkVerif.Transform
 import LarkVerif.TransformEmbed
 import LarkVerif.Cache
 import LarkVerif.Serialize
+import LarkVerif.Threads
 import Std.Data.HashMap
 /-! Line-protocol driver: one JSON request per stdin line (`{"op": ...}`), one JSON answer per stdout line.
     Runs the *executable definitions the theorems are about*.  Not part of the proof library. -/
@@ -445,6 +446,11 @@ def handle (j : Json) : Except String Json := do
   | "shape" => runShape j
   | "embed" => runEmbed j
   | "cache" => runCache j
+  | "threads" =>
+    let fixed ← boolOf (← j.getObjVal? "fixed")
+    let n ← getNat j "n"
+    let sched ← natListOf (← j.getObjVal? "sched")
+    pure (Json.arr ((ThProto.run fixed (ThProto.initSys n) sched).map Json.bool).toArray)
   | "ser" =>
     let v ← pvOf (← j.getObjVal? "v")
     pure (Json.mkObj [("ser", pvJ (SerProto.ser v)), ("round", pvJ (SerProto.deser (SerProto.ser v)))])
